@@ -80,6 +80,20 @@ def gen_blocks(rng, lo, hi, max_blocks=4, p_adjacent=0.35):
     return out or [(lo, hi)]
 
 
+def split_blocks(rng, blocks, n):
+    """cut up to `n` blocks of length >= 2 at an interior point: the two halves are adjacent (0-bp gap)"""
+    out = list(blocks)
+    for _ in range(n):
+        idx = [i for i, (s, e) in enumerate(out) if e - s >= 2]
+        if not idx:
+            break
+        i = rng.choice(idx)
+        s, e = out[i]
+        m = rng.randint(s + 1, e - 1)
+        out[i:i + 1] = [(s, m), (m, e)]
+    return out
+
+
 def clip(blocks, a, b):
     return [(max(s, a), min(e, b)) for s, e in blocks if max(s, a) < min(e, b)]
 
@@ -198,6 +212,10 @@ def gen_tx(rng, lo, hi, strand, coding, p):
             if sum(e - s for s, e in cds) >= 6 + frame or rng.random() < 0.04:
                 break
         if cds:
+            # CDS block structure that DIFFERS from the exon structure: extra block boundaries inside an exon
+            # (adjacent, 0-bp-gap CDS blocks = frameshift-style annotation); `split_cds` = probability per transcript
+            if rng.random() < p.get("split_cds", 0.3):
+                cds = split_blocks(rng, cds, rng.randint(1, 2))
             tx["cds"] = cds
             tx["frame"] = frame
             if len(cds) > 1 and rng.random() < p.get("p_frameshift", 0.12):
@@ -350,6 +368,13 @@ def classify(coll, table):
             if t["cds"]:
                 if merged(t["cds"]) != t["cds"]:
                     tags.append("cds:adjacent-blocks")
+                    if len(t["exons"]) == 1:
+                        tags.append("cds:adjacent-blocks-in-single-exon-tx")
+                    if any(s < m < e for (_, m) in t["cds"][:-1] for (s, e) in t["exons"]):
+                        tags.append("cds:block-boundary-inside-exon")
+                    if any(a[1] == b[0] and any(ex[1] == a[1] for ex in t["exons"])
+                           for a, b in zip(t["cds"], t["cds"][1:])):
+                        tags.append("cds:adjacent-across-exon-boundary")
                 tags.append(f"cds:start-frame={t['frame']}")
                 if t["shift"]:
                     tags.append("cds:frameshift-vector")
